@@ -475,6 +475,28 @@ func runC17(c *Ctx) {
 							}
 						}
 					}
+					// a membership / de-duplication guard in front of the append has to consult the list that is
+					// being extended: a test against the sibling list drops a key the endorsement carries
+					other := "TrustedAuthorKeys"
+					if n == "TrustedAuthorKeys" {
+						other = "TrustedIdKeys"
+					}
+					crossed := false
+					for _, cf := range dominatingConds(b) {
+						vals := []ssa.Value{cf.Cond}
+						if call, ok := cf.Cond.(*ssa.Call); ok {
+							vals = append(vals, call.Call.Args...)
+						}
+						for _, cv := range vals {
+							sl.Visit(cv, func(v ssa.Value) bool {
+								if flow.IsFieldLoad(v, cpbPkg, "Policy", other) {
+									crossed = true
+								}
+								return !crossed
+							}, nil)
+						}
+					}
+					c.S.Check(!crossed, "R4", load.FuncName(f)+":"+n+" guard", c.pos(st.Pos()), "no guard of this append consults the sibling key list", "the append to "+n+" is guarded by a test on "+other+": a key the endorsement carries is left out of "+n+" when it happens to be in the other list")
 					c.S.Check(okSrc, "R4", load.FuncName(f)+":"+n+" source", c.pos(st.Pos()), "appended key is a PEM block of the endorsement's CA bundle", "appended trusted key does not come from the endorsement's CA bundle")
 					c.S.Check(okType, "R4", load.FuncName(f)+":"+n+" block type", c.pos(st.Pos()), "appended only behind Type == CERTIFICATE", "trusted key appended without the PEM block type having been checked")
 				}
